@@ -219,7 +219,8 @@ def contract_call(ex, callee: Spec, args, kwargs, st, text):
     ex.note_contract(callee)
     n = ex.next_call()
     for cl in callee.pre(st, a):
-        ex.oblige(st, "call-pre", f"{n}:{callee.qualname}:{cl.name}", cl.z, cl.tag)
+        if cl.tag != "axiom":  # world axioms / arithmetic lemmas are not obligations of the caller
+            ex.oblige(st, "call-pre", f"{n}:{callee.qualname}:{cl.name}", cl.z, cl.tag)
         st.assume(cl.z)
     out = []
     cur = st
